@@ -20,7 +20,7 @@ RangeFails(ln) ==
       FailT(ln.st = r.st, "C17:accept-reject"),
       IF ln.st = "ok" /\ r.st = "ok" THEN
          UNION { FailT(ln.len = r.len, "C17:length"),
-                 FailT(ln.len = 0 \/ r.off \in SeqToSet(ln.offs), "C17:offset"),
+                 FailT(ln.len = 0 \/ (ln.at_start /\ r.off = BVal(ln.s)), "C17:offset"),
                  FailT(ln.bytes_ok, "C17:bytes") } ELSE {},
       FailT(ln.alloc <= ln.L + 1024, "C17:allocation")
     }
